@@ -1184,8 +1184,3 @@ func labelOf(n *model.Node) string {
 	}
 	return n.Status.String()
 }
-
-func agentParams(t *testing.T, tp *simrt.Tape, cfg simrt.Config, sc *agentScenario, out *Outcome, opts RunOpts) *Outcome {
-	out.Infra = "params variant not built yet"
-	return out
-}
